@@ -57,7 +57,10 @@ def run(tier):
         rule='exhaustive finite matrix: policy chains {none, RecipientSplit, RecipientDomainSplit, both orders} x 1/3/4 '
              'recipients x which storage write fails (none, each position, first+last) and how (QueueError with reply, without, '
              'foreign exception) x which writes are slow (gated: the wire is inspected before they are released) x both edges '
-             '(real SMTP session, real WsgiEdge call); ProxyQueue with whole-message and per-recipient relay results; '
+             '(real SMTP session, real WsgiEdge call); ProxyQueue with whole-message results and every per-recipient result '
+             'pattern over {ok, transient, permanent} for 1-3 recipients as mapping and as sequence; two or three clients handing '
+             'off to the same queue while a queue policy that yields is being applied (with splitting, failing and slow writes), '
+             'writes attributed to the client message they carry; '
              'non-trivial = more than one envelope, a failing or a slow write, or the proxy queue',
         trigger=lambda tr: tr['cfg']['nenv'] > 1 or tr['cfg']['fail'] or tr['cfg']['slow'] or tr['cfg']['proxy'],
         assumptions=['a foreign (non-QueueError) storage exception may be answered by any 4xx/5xx reply or by closing the session'],
